@@ -436,6 +436,7 @@ template <class G> struct Exec {
       } break;
       case OP_ACCESSORS: { Collector c(out); if (!Acc<G>::read(a, c)) out.status = 9; } break;
       case OP_HOLD: hold_b(st, a, op, out); break;
+      case OP_CTOR: { G r; if (Acc<G>::ctor(a, (int)op.c, r)) put_e(out, r); else out.status = 9; } break;
       case OP_DATAPTR: {
         // v[0]: the view reads the user's buffer in place; v[1]: internal sub-views sit at the documented offsets
         const void* expect = (op.ka == K_OWN) ? (const void*)st.e[op.a].data() : (const void*)st.ebuf[op.a];
